@@ -7,7 +7,7 @@ import copy
 
 from .. import gen as G
 from .. import scen as S
-from ..twin import compare_traces, run_traced
+from ..twin import compare_traces, confirm_chain, run_traced
 
 PROPERTY = "C05"
 LEVEL = "exploration"
@@ -55,20 +55,14 @@ def generate(seed, tier="quick"):
             "twin": {"kind": "timescale", "k": k1}}
 
 
+NOISE_EPS = 1e-9
+
+
 def execute(scn):
     res = _execute(scn)
-    if res["verdicts"] and scn["world"].get("solver", {}).get("tol") != "tight":
-        # 'within solver tolerance': a genuine violation persists when the solver tolerance
-        # is tightened; an amplified solver-level difference does not.  Confirm by refinement.
-        s2 = copy.deepcopy(scn)
-        s2["world"]["solver"] = {"tol": "tight"}
-        res2 = _execute(s2)
-        c = res["stats"]["counters"]
-        if not res2["verdicts"]:
-            c["default_solver_outlier_not_confirmed_by_tight_solver"] = 1
-            res["verdicts"] = []
-        else:
-            c["violation_confirmed_by_tight_solver"] = 1
+    if res["verdicts"] and not confirm_chain(scn, _execute, lambda r: r["verdicts"], tol_fn,
+                                            PROPERTY, res["stats"]["counters"], NOISE_EPS):
+        res["verdicts"] = []
     return res
 
 
@@ -129,6 +123,12 @@ COMPONENTS = {
     "stub": [],
 }
 ASSUMPTIONS = ["'within solver tolerance' is taken as twice the accumulated ODE tolerance 5e-3 + 1e-3*(N + 2*strain) (each world within the bound of the exact solution); a discrepancy seen with the default solver is reported only if it persists when both worlds are re-run with rtol 1e-10 / atol 1e-12",
+               "a discrepancy must also persist when the initial textures of both worlds receive the same deterministic "
+               "1e-9 perturbation (two variants): exactly symmetric grain pairs whose winner is decided by rounding "
+               "noise are a knife edge of the numerics, not of the property; counted as knife_edge_not_reproduced_under_perturbation",
+               "a discrepancy is not judged when the history amplifies a deterministic 1e-9 perturbation of the "
+               "initial texture beyond a tenth of the tolerance (exponentially sensitive D-Rex dynamics at high "
+               "M* and strain); counted as ill_conditioned_history_not_judged",
                "comparison of a mineral stops at an update in which the two worlds disagree on which "
                "grains are below the sliding threshold while their integrated fractions agree within "
                "tolerance (exact tie); counted as inconclusive_tie",
